@@ -144,6 +144,14 @@ fn eval_cli(map: &[Option<usize>], cs: &CallSet, rows: &[Vec<Cls>], container: C
     let bytes = render(cs, container, &Layout::Single);
     let expect = ref_create(rows, map, None);
     let mut sa = sample_arg(map);
+    if what == "grouped-by-population" {
+        // the list names the same assignment in another order than the input's sample columns:
+        // grouped by population (keeping the labels' first-appearance order), samples reversed within each
+        let mut entries: Vec<(usize, String)> = sa.split(',').map(|e| (e.rsplit("=p").next().unwrap().parse::<usize>().unwrap(), e.to_string())).collect();
+        entries.reverse();
+        entries.sort_by_key(|e| e.0);
+        sa = entries.into_iter().map(|e| e.1).collect::<Vec<_>>().join(",");
+    }
     if what == "repeated-entry" {
         // naming a sample twice (same population) does not add a sample: same spectrum (or a diagnosed error)
         let first = sa.split(',').next().unwrap_or("").to_string();
@@ -343,6 +351,8 @@ pub fn run(tier: Tier) -> i32 {
         }
         if map.iter().any(|p| p.is_some()) {
             cjobs.push((map.clone(), all.clone(), rows.clone(), Container::Vcf, "repeated-entry".into()));
+            cjobs.push((map.clone(), all.clone(), rows.clone(), Container::Vcf, "grouped-by-population".into()));
+            cjobs.push((map.clone(), all.clone(), rows.clone(), Container::Bcf, "grouped-by-population".into()));
         }
         for p in ["0", "1", "6", "17"] {
             cjobs.push((map.clone(), all.clone(), rows.clone(), Container::Vcf, format!("precision-{p}")));
@@ -371,7 +381,7 @@ pub fn run(tier: Tier) -> i32 {
         name: "cli: sfs create -s".into(),
         evaluations: cjobs.len() as u64,
         nontrivial: nt,
-        note: format!("S={s}: {} maps x ({} one-record VCFs + every-row call set in 4 containers + explicit --precision 0/1/6/17 + a list naming one sample twice + 8 decorations in vcf and bcf)", maps.len(), rows.len()),
+        note: format!("S={s}: {} maps x ({} one-record VCFs + every-row call set in 4 containers + explicit --precision 0/1/6/17 + a list naming one sample twice + the list grouped by population (order unlike the column order) + 8 decorations in vcf and bcf)", maps.len(), rows.len()),
         exhaustive: true,
         extra: vec![],
     });
@@ -411,6 +421,12 @@ pub fn replay(case: &J) -> Option<Vec<String>> {
             let vcf = case.get("vcf")?.as_str()?;
             let what = case.get("what").and_then(|w| w.as_str()).unwrap_or("").to_string();
             let mut sa = case.get("samples")?.as_str()?.to_string();
+            if what == "grouped-by-population" {
+                let mut entries: Vec<(usize, String)> = sa.split(',').map(|e| (e.rsplit("=p").next().unwrap().parse::<usize>().unwrap_or(0), e.to_string())).collect();
+                entries.reverse();
+                entries.sort_by_key(|e| e.0);
+                sa = entries.into_iter().map(|e| e.1).collect::<Vec<_>>().join(",");
+            }
             if what == "repeated-entry" {
                 let first = sa.split(',').next().unwrap_or("").to_string();
                 sa = format!("{sa},{first}");
